@@ -1,13 +1,18 @@
 /-
   C07 — Every decoder is total: any input yields a value or an error, never a crash.
   Property theorems only.  This file covers the SMB command decoders (the 115 regenerated
-  unmarshal programs); the other decoding entry points are proved total in the property files of
-  their own models and re-exported here.
+  unmarshal programs: the kernel decides the static predicate `Guarded` on them, `guarded_sound`
+  proves the predicate sound for the semantics, `smb_decode_total` is the resulting theorem about
+  every input) and the nested wire types (C06 decoders); the other decoding entry points are proved
+  total in the property files of their own models and re-exported here.
 -/
 import Manticore.Model.SmbCmd
 import Manticore.Model.SmbCodecs
 import Manticore.Gen.SmbCommands
 import Manticore.Props.C16
+import Manticore.Lemmas.C06Total
+import Manticore.Lemmas.SmbGuarded
+import Manticore.Lemmas.SmbCodecsHonest
 namespace Manticore.C07
 open Manticore Manticore.SmbIR Manticore.Gen.SmbCommands
 
@@ -37,6 +42,195 @@ theorem smb_split_total (data : Bytes) : splitParams data ≠ .panic ∧ ∀ r, 
 /-- `utils.GetNullTerminatedUnicodeString` consumes no more than it is given -/
 theorem cstr_offset_le (d : Bytes) : (cstrUnicode d).2 ≤ d.length := by
   unfold cstrUnicode; exact Nat.min_le_right _ _
+
+/-! ### `Guarded` is sound: the kernel-decided fact about the programs is a theorem about every input
+
+`smb_all_commands_guarded` is a statement about program *texts*.  The three theorems below turn it
+into a statement about *runs*: for every input buffer (and every spare capacity behind the two
+streams, every word count, every initial field assignment) the model of `Unmarshal` returns a value
+or an error.  The proof (Lemmas/SmbGuarded.lean) interprets the analysis state `Known` at a run-time
+state and shows each accepted statement preserves it; the only assumption is that the nested
+decoders are honest, which `std_honest` discharges for the table actually used. -/
+
+/-- **Soundness of the static predicate**: a command whose unmarshal program is `Guarded` never
+    panics — on any parameter stream `P`, data stream `D`, bytes `Pext`/`Dext` behind them inside
+    their backing arrays, word count and initial field values — for any codec table whose decoders
+    do not panic, report no more than they were given and advance on a non-empty window
+    (`HonestCodecs`, Lemmas/SmbGuarded.lean).  The model reports an endless Go loop as a panic too,
+    so this is also termination of the `for offset+size <= len(blk)` loops. -/
+theorem guarded_sound (C : Codecs) (hC : HonestCodecs C) (c : Cmd) (hg : Guarded c = true) :
+    ∀ env0 wc P D Pext Dext, runU C c env0 wc P D Pext Dext ≠ .panic :=
+  fun env0 wc P D Pext Dext => runU_no_panic C hC c hg env0 wc P D Pext Dext
+
+/-- the codec table the command models use (`SmbCodecs.std`: the C06 decoders and `Dialects`)
+    satisfies the three decoder laws -/
+theorem std_honest : HonestCodecs Manticore.SmbCodecs.std := Manticore.SmbCodecs.std_honest
+
+/-- **Every SMB command decoder is total**: for each of the 115 regenerated command structures,
+    every initial field assignment and every input byte string, the model of
+    `Unmarshal` (envelope split, then the extracted program with Go's slice-bounds semantics) yields
+    a value or an error, never a panic. -/
+theorem smb_decode_total : ∀ c ∈ Manticore.Gen.SmbCommands.commands, ∀ env0 data,
+    decodeCmd Manticore.SmbCodecs.std c env0 data ≠ .panic := by
+  intro c hc env0 data
+  have hg : Guarded c = true := List.all_eq_true.mp smb_all_commands_guarded c hc
+  unfold decodeCmd
+  cases hp : splitParams data with
+  | ok r =>
+    obtain ⟨wc, P, rest⟩ := r
+    simp only []
+    cases hd : splitData rest with
+    | ok r2 =>
+      obtain ⟨D, Dext⟩ := r2
+      exact guarded_sound _ std_honest c hg env0 wc P D _ Dext
+    | err => simp
+    | panic => exact absurd hd ((smb_split_total data).2 rest)
+  | err => simp
+  | panic => exact absurd hp (smb_split_total data).1
+
+/-- non-vacuity: a concrete regenerated command satisfies the hypothesis of `guarded_sound` -/
+example : Guarded cmd_CloseRequest = true := by decide
+example : cmd_CloseRequest ∈ commands := by simp [commands, chunk0]
+
+/-- the predicate is not trivially true, and what it rules out is real: a read with no guard in
+    front is rejected, and that program does panic on an empty parameter stream -/
+example : Guarded { (default : Cmd) with unmarshal := [.readInt .P 2 .le "FID"] } = false := by decide
+example : runU Manticore.SmbCodecs.std { (default : Cmd) with unmarshal := [.readInt .P 2 .le "FID"] } [] 0 [] []
+    = .panic := by decide
+/-! The soundness proof found three statements where the predicate accepted a program that the
+    semantics can drive into a panic; the predicate was tightened (Model/SmbCmd.lean) and all 115
+    regenerated programs still pass.  One witness per repair: the program is now rejected, and it
+    does panic (or hang) on the given input. -/
+
+/-- (1) `whileFitsSub` with a zero-size window never advances: Go would loop forever -/
+example : Guarded { (default : Cmd) with unmarshal := [.whileFitsSub .D "X" "Dialects" 0] } = false := by decide
+example : runU Manticore.SmbCodecs.std { (default : Cmd) with unmarshal := [.whileFitsSub .D "X" "Dialects" 0] }
+    [("X", .ts [])] 0 [] [] = .panic := by decide
+
+/-- (2) `readArr3` assigns its field, so a guard stated in terms of that field no longer holds -/
+private def witnessArr3 : Cmd := { (default : Cmd) with unmarshal :=
+  [.guard .D (.lit 12), .guard .P (.flen "R"), .readArr3 .D "R", .readBytes .P "X" (.flen "R")] }
+example : Guarded witnessArr3 = false := by decide
+example : runU Manticore.SmbCodecs.std witnessArr3 [("R", .b [])] 0 [] (List.replicate 12 0) = .panic := by decide
+
+/-- (3) a nested decoder whose error is not checked leaves `bytesRead` as it was, so
+    `offset += bytesRead` may jump past the end -/
+private def witnessUnchecked : Cmd := { (default : Cmd) with unmarshal :=
+  [.readSub .D "S" "SMB_STRING" none false true true, .guard .P (.lit 3),
+   .readSub .P "A" "SMB_NMPIPE_STATUS" (some 3) false false true, .advanceRead, .readRest .P "X"] }
+example : Guarded witnessUnchecked = false := by decide
+example : runU Manticore.SmbCodecs.std witnessUnchecked [] 0 [0, 0, 0] [2, 65, 65, 65, 65, 0] = .panic := by decide
+
+/-! ### nested wire types: every C06 decoder is total (Lemmas/C06Total.lean)
+
+For each type: `Unmarshal` never panics, and a success reports a byte count `k` with
+`0 < k ≤ len(data)`. -/
+open Manticore.C06 in
+/-- `SMB_STRING.Unmarshal` never panics -/
+theorem smb_string_decode_total (b : Bytes) : SmbString.decode b ≠ .panic := SmbString.decode_total b
+open Manticore.C06 in
+/-- `SMB_STRING.Unmarshal` reports between 1 and `len(data)` bytes -/
+theorem smb_string_decode_bounded (b : Bytes) (v : SmbString.V) (k : Nat) (h : SmbString.decode b = .ok (v, k)) :
+    0 < k ∧ k ≤ b.length := ⟨SmbString.decode_pos b v k h, SmbString.decode_bounded b v k h⟩
+open Manticore.C06 in
+/-- `OEM_STRING.Unmarshal` never panics -/
+theorem oem_string_decode_total (b : Bytes) : OemString.decode b ≠ .panic := OemString.decode_total b
+open Manticore.C06 in
+/-- `OEM_STRING.Unmarshal` reports between 1 and `len(data)` bytes -/
+theorem oem_string_decode_bounded (b : Bytes) (v : OemString.V) (k : Nat) (h : OemString.decode b = .ok (v, k)) :
+    0 < k ∧ k ≤ b.length := ⟨OemString.decode_pos b v k h, OemString.decode_bounded b v k h⟩
+open Manticore.C06 in
+/-- `SMB_DATE.Unmarshal` never panics -/
+theorem smb_date_decode_total (b : Bytes) : SmbDate.decode b ≠ .panic := SmbDate.decode_total b
+open Manticore.C06 in
+/-- `SMB_DATE.Unmarshal` reports between 1 and `len(data)` bytes -/
+theorem smb_date_decode_bounded (b : Bytes) (v : SmbDate.V) (k : Nat) (h : SmbDate.decode b = .ok (v, k)) :
+    0 < k ∧ k ≤ b.length := ⟨SmbDate.decode_pos b v k h, SmbDate.decode_bounded b v k h⟩
+open Manticore.C06 in
+/-- `FILETIME.Unmarshal` (also `SMB_TIME`) never panics -/
+theorem filetime_decode_total (b : Bytes) : FileTime.decode b ≠ .panic := FileTime.decode_total b
+open Manticore.C06 in
+/-- `FILETIME.Unmarshal` reports between 1 and `len(data)` bytes -/
+theorem filetime_decode_bounded (b : Bytes) (v : FileTime.V) (k : Nat) (h : FileTime.decode b = .ok (v, k)) :
+    0 < k ∧ k ≤ b.length := ⟨FileTime.decode_pos b v k h, FileTime.decode_bounded b v k h⟩
+open Manticore.C06 in
+/-- `LOCKING_ANDX_RANGE32.Unmarshal` never panics -/
+theorem range32_decode_total (b : Bytes) : Range32.decode b ≠ .panic := Range32.decode_total b
+open Manticore.C06 in
+/-- `LOCKING_ANDX_RANGE32.Unmarshal` reports between 1 and `len(data)` bytes -/
+theorem range32_decode_bounded (b : Bytes) (v : Range32.V) (k : Nat) (h : Range32.decode b = .ok (v, k)) :
+    0 < k ∧ k ≤ b.length := ⟨Range32.decode_pos b v k h, Range32.decode_bounded b v k h⟩
+open Manticore.C06 in
+/-- `LOCKING_ANDX_RANGE64.Unmarshal` never panics -/
+theorem range64_decode_total (b : Bytes) : Range64.decode b ≠ .panic := Range64.decode_total b
+open Manticore.C06 in
+/-- `LOCKING_ANDX_RANGE64.Unmarshal` reports between 1 and `len(data)` bytes -/
+theorem range64_decode_bounded (b : Bytes) (v : Range64.V) (k : Nat) (h : Range64.decode b = .ok (v, k)) :
+    0 < k ∧ k ≤ b.length := ⟨Range64.decode_pos b v k h, Range64.decode_bounded b v k h⟩
+open Manticore.C06 in
+/-- `SMB_NMPIPE_STATUS.Unmarshal` never panics -/
+theorem pipe_status_decode_total (b : Bytes) : PipeStatus.decode b ≠ .panic := PipeStatus.decode_total b
+open Manticore.C06 in
+/-- `SMB_NMPIPE_STATUS.Unmarshal` reports between 1 and `len(data)` bytes -/
+theorem pipe_status_decode_bounded (b : Bytes) (v : PipeStatus.V) (k : Nat) (h : PipeStatus.decode b = .ok (v, k)) :
+    0 < k ∧ k ≤ b.length := ⟨PipeStatus.decode_pos b v k h, PipeStatus.decode_bounded b v k h⟩
+open Manticore.C06 in
+/-- `SMB_RESUME_KEY.Unmarshal` never panics -/
+theorem resume_key_decode_total (b : Bytes) : ResumeKey.decode b ≠ .panic := ResumeKey.decode_total b
+open Manticore.C06 in
+/-- `SMB_RESUME_KEY.Unmarshal` reports between 1 and `len(data)` bytes -/
+theorem resume_key_decode_bounded (b : Bytes) (v : ResumeKey.V) (k : Nat) (h : ResumeKey.decode b = .ok (v, k)) :
+    0 < k ∧ k ≤ b.length := ⟨ResumeKey.decode_pos b v k h, ResumeKey.decode_bounded b v k h⟩
+open Manticore.C06 in
+/-- `SMB_FILE_ATTRIBUTES.Unmarshal` never panics -/
+theorem file_attributes_decode_total (b : Bytes) : FileAttributes.decode b ≠ .panic := FileAttributes.decode_total b
+open Manticore.C06 in
+/-- `SMB_FILE_ATTRIBUTES.Unmarshal` reports between 1 and `len(data)` bytes -/
+theorem file_attributes_decode_bounded (b : Bytes) (v : FileAttributes.V) (k : Nat)
+    (h : FileAttributes.decode b = .ok (v, k)) : 0 < k ∧ k ≤ b.length :=
+  ⟨FileAttributes.decode_pos b v k h, FileAttributes.decode_bounded b v k h⟩
+open Manticore.C06 in
+/-- `SMB_DIRECTORY_INFORMATION.Unmarshal` never panics -/
+theorem dir_info_decode_total (b : Bytes) : DirInfo.decode b ≠ .panic := DirInfo.decode_total b
+open Manticore.C06 in
+/-- `SMB_DIRECTORY_INFORMATION.Unmarshal` reports between 1 and `len(data)` bytes -/
+theorem dir_info_decode_bounded (b : Bytes) (v : DirInfo.V) (k : Nat) (h : DirInfo.decode b = .ok (v, k)) :
+    0 < k ∧ k ≤ b.length := ⟨DirInfo.decode_pos b v k h, DirInfo.decode_bounded b v k h⟩
+open Manticore.C06 in
+/-- the AndX block's `Unmarshal` never panics -/
+theorem andx_decode_total (b : Bytes) : AndX.decode b ≠ .panic := AndX.decode_total b
+open Manticore.C06 in
+/-- the AndX block's `Unmarshal` reports between 1 and `len(data)` bytes -/
+theorem andx_decode_bounded (b : Bytes) (v : AndX.V) (k : Nat) (h : AndX.decode b = .ok (v, k)) :
+    0 < k ∧ k ≤ b.length := ⟨AndX.decode_pos b v k h, AndX.decode_bounded b v k h⟩
+open Manticore.C06 in
+/-- `Parameters.Unmarshal` never panics -/
+theorem parameters_decode_total (b : Bytes) : Parameters.decode b ≠ .panic := Parameters.decode_total b
+open Manticore.C06 in
+/-- `Parameters.Unmarshal` reports between 1 and `len(data)` bytes -/
+theorem parameters_decode_bounded (b : Bytes) (v : Parameters.V) (k : Nat) (h : Parameters.decode b = .ok (v, k)) :
+    0 < k ∧ k ≤ b.length := ⟨Parameters.decode_pos b v k h, Parameters.decode_bounded b v k h⟩
+open Manticore.C06 in
+/-- `Data.Unmarshal` never panics -/
+theorem data_decode_total (b : Bytes) : Data.decode b ≠ .panic := Data.decode_total b
+open Manticore.C06 in
+/-- `Data.Unmarshal` reports between 1 and `len(data)` bytes -/
+theorem data_decode_bounded (b : Bytes) (v : Data.V) (k : Nat) (h : Data.decode b = .ok (v, k)) :
+    0 < k ∧ k ≤ b.length := ⟨Data.decode_pos b v k h, Data.decode_bounded b v k h⟩
+open Manticore.C06 in
+/-- the NTLM `Version.Unmarshal` never panics -/
+theorem version_decode_total (b : Bytes) : Version.decode b ≠ .panic := Version.decode_total b
+open Manticore.C06 in
+/-- the NTLM `Version.Unmarshal` reports between 1 and `len(data)` bytes -/
+theorem version_decode_bounded (b : Bytes) (v : Version.V) (k : Nat) (h : Version.decode b = .ok (v, k)) :
+    0 < k ∧ k ≤ b.length := ⟨Version.decode_pos b v k h, Version.decode_bounded b v k h⟩
+/-- `Dialects.Unmarshal` never panics -/
+theorem dialects_decode_total (b : Bytes) : Manticore.SmbCodecs.dialectsDec b ≠ .panic :=
+  Manticore.SmbCodecs.dialectsDec_total b
+/-- `Dialects.Unmarshal` reports at most `len(data)` bytes, and at least one unless `data` is empty -/
+theorem dialects_decode_bounded (b : Bytes) (v : List Bytes) (k : Nat)
+    (h : Manticore.SmbCodecs.dialectsDec b = .ok (v, k)) : k ≤ b.length ∧ (b ≠ [] → 0 < k) :=
+  ⟨Manticore.SmbCodecs.dialectsDec_bounded b v k h, Manticore.SmbCodecs.dialectsDec_pos b v k h⟩
 
 /-- binary SIDs (re-exported from C16): total on every byte string -/
 theorem sid_total (b : Bytes) : ∃ s, Manticore.C16.parseSID b = .ok s := Manticore.C16.sid_total b
